@@ -87,7 +87,8 @@ def _tlc_jobs(chk):
     jobs += [("Destructure", "Destructure_NegOr.cfg", "neg", "OrExact"),            # mutant models: must be rejected
              ("SyntaxQuote", "SyntaxQuote_NegShared.cfg", "neg", "GensymFresh"),
              ("SyntaxQuote", "SyntaxQuote_NegNoEnv.cfg", "neg", "GensymFunction"),
-             ("SyntaxQuote", "SyntaxQuote_NegSpecial.cfg", "neg", "AllQualified")]
+             ("SyntaxQuote", "SyntaxQuote_NegSpecial.cfg", "neg", "AllQualified"),
+             ("SyntaxQuote", "SyntaxQuote_NegNest.cfg", "neg", "GensymFunction")]
     per = max(2, W // 3)
     res = {}
     with cf.ThreadPoolExecutor(3) as ex:
